@@ -7,6 +7,7 @@ package commitlog
 // evaluated on the implementation's outputs.
 
 import (
+	"regexp"
 	"context"
 	"fmt"
 	"os"
@@ -463,16 +464,25 @@ func vC01ParkedProgram(rnd *vRand, maxSeg int64) []string {
 // no `sethw` beyond the end of the log at that point (removing the appends in front of a `sethw` would otherwise turn
 // a failing case into a different one - a HW above the log end, which no caller of the commit log produces).
 func vC01InDomain(prog []string) bool {
-	next := int64(0)
+	next, hw := int64(0), int64(-1)
 	for _, op := range prog {
 		f := strings.Fields(op)
 		switch f[0] {
 		case "begin", "reopen":
 			if f[0] == "begin" {
-				next = 0
+				next, hw = 0, -1
 			}
 		case "append":
-			next += int64(len(f) - 3)
+			// a batch with a header key the stored format cannot hold (more than 32767 bytes) is refused as a whole: nothing is stored
+			refused := false
+			for _, m := range vC01HdrKeyRe.FindAllStringSubmatch(op, -1) {
+				if n, err := strconv.Atoi(m[1]); err == nil && n > 32767 {
+					refused = true
+				}
+			}
+			if !refused {
+				next += int64(len(f) - 3)
+			}
 		case "appendset":
 			for _, tok := range f[1:] {
 				if o, err := strconv.ParseInt(strings.SplitN(tok, "/", 2)[0], 10, 64); err == nil && o+1 > next {
@@ -484,16 +494,29 @@ func vC01InDomain(prog []string) bool {
 				if o < 0 {
 					o = 0
 				}
+				if o <= hw {
+					// no caller cuts a log at or below its high watermark (C02: truncation removes uncommitted messages only); the
+					// generators never do, a shrunk program must not either - the HW would then name a message that is gone
+					return false
+				}
 				next = o
 			}
 		case "sethw":
-			if o, err := strconv.ParseInt(f[1], 10, 64); err == nil && o >= next {
-				return false
+			if o, err := strconv.ParseInt(f[1], 10, 64); err == nil {
+				if o >= next {
+					return false
+				}
+				if o > hw {
+					hw = o
+				}
 			}
 		}
 	}
 	return true
 }
+
+// header keys written as `*<length>.<byte>~…` inside a message token (`key/value/headers/expected`)
+var vC01HdrKeyRe = regexp.MustCompile(`[/;]\*(\d+)\.[0-9a-f]+~`)
 
 func TestVerifC01(t *testing.T) {
 	model := vStartModel(t)
@@ -525,6 +548,21 @@ func TestVerifC01(t *testing.T) {
 			res.Sample(map[string]interface{}{"program": prog, "impl": impl})
 		}
 		if what, tag := vC01Oracle(prog, impl); what != "" {
+			if strings.Contains(what, "TIMEOUT") {
+				// "not delivered in time" on a saturated machine is not "never delivered": the same program is run again on a fresh log
+				// and the failure must show again (a reader that really loses a message loses it every time; thorough background runs
+				// next to a full sweep produced three such reports on the unchanged tree, DESIGN 9.3)
+				v := &vLogImpl{t: t}
+				again := make([]string, len(prog))
+				for i, op := range prog {
+					again[i] = v.exec(op)
+				}
+				v.close()
+				if w2, _ := vC01Oracle(prog, again); w2 == "" {
+					res.Dist("timeout-not-reproduced")
+					return
+				}
+			}
 			if os.Getenv("VERIF_SHOW_ORIGINAL") != "" {
 				// the program as generated (the recorded case is the shrunk one, which can leave the generator's domain)
 				fmt.Fprintf(os.Stderr, "ORIGINAL-FAILING %s: %s\n  %s\n", tag, what, strings.Join(prog, "\n  "))
